@@ -51,6 +51,7 @@ def main():
             ],
             "detected_by_quick_check": bool(chk.get("rc") == 1 and chk.get("violations", 0) > 0),
             "first_violation_line": chk.get("first", ""),
+            "first_violation_detail": chk.get("detail", ""),
         }
         json.dump(meta, open(os.path.join(dst, "meta.json"), "w"), indent=1)
         table.append((sid, prop, "detected" if meta["detected_by_quick_check"] else "MISSED", d))
